@@ -25,6 +25,7 @@ fn main() {
         "dirs" => tables::dirs(),
         "enc" => enc::main(),
         "hist" => hist::main(&args[2..]),
+        "histfs" => hist::main_fs(&args[2..]),
         "build" => build::main(),
         "build-worker" => build::worker(),
         "buildfs" => build::parent("buildfs-worker"),
